@@ -488,6 +488,9 @@ type PNode struct {
 	HandshakeBlocks int
 	carried         bool
 	ordinal         int // 0 for the first Boot on this Persist, 1 for the next, ...
+	// first violation of the part-set invariant (C10 at node level) seen at a quiescent point
+	PartViolation string
+	ForgedParts   int // forged block parts the harness has sent to this incarnation
 }
 
 // Boot starts an incarnation from p. An injected crash during recovery surfaces as (*PNode with Snap set, sig).
